@@ -437,8 +437,8 @@ func extMutexUnlock(fr *frame, args []value) value {
 	if !m.locked {
 		panic(targetPanic{v: iface{w.runtimeErrorT, "fatal error: sync: unlock of unlocked mutex"}, where: w.where(fr.caller, token.NoPos)})
 	}
-	m.locked = false
 	w.schedPoint("unlock")
+	m.locked = false
 	return nil
 }
 
@@ -457,8 +457,8 @@ func extRUnlock(fr *frame, args []value) value {
 	if m.readers <= 0 {
 		panic(targetPanic{v: iface{w.runtimeErrorT, "fatal error: sync: RUnlock of unlocked RWMutex"}, where: w.where(fr.caller, token.NoPos)})
 	}
-	m.readers--
 	w.schedPoint("runlock")
+	m.readers--
 	return nil
 }
 
@@ -548,12 +548,10 @@ type wgState struct{ n int64 }
 func extWGAdd(fr *frame, args []value) value {
 	w := fr.w
 	g := w.syncObj(args[0].(*value), func() any { return &wgState{} }).(*wgState)
+	w.schedPoint("wg")
 	g.n += int64(args[1].(uint64))
 	if g.n < 0 {
 		panic(targetPanic{v: iface{w.runtimeErrorT, "sync: negative WaitGroup counter"}, where: w.where(fr.caller, token.NoPos)})
-	}
-	if g.n == 0 {
-		w.schedPoint("wg")
 	}
 	return nil
 }
@@ -599,8 +597,10 @@ func extAtomicStore(fr *frame, args []value) value {
 	if p == nil {
 		fr.w.nilDeref(fr.caller, token.NoPos)
 	}
-	fr.w.setCell(p, args[1])
+	// scheduling points come BEFORE every visible operation (a point only after a store would leave no
+	// switch between a thread's load and its own later store: missed by seeded change C58-A)
 	fr.w.schedPoint("atomic")
+	fr.w.setCell(p, args[1])
 	return nil
 }
 
